@@ -345,7 +345,7 @@ fn rename(b: &[S], occ: &[(String, Res)], k: &mut usize, names: &mut BTreeMap<us
 impl Property for C10 {
     fn id(&self) -> &'static str { "C10" }
     fn rule(&self) -> &'static str {
-        "generated scope trees (blocks, conditionals, loops, local declarations, const items in any order) whose identifiers are drawn from a pool of 5 names plus register aliases and builtin consts, so shadowing, forward references to consts, same-block redeclaration, use inside an own initialiser, locals used inside const initialisers and aliases in const context all occur; (1) Ok/Err and the definition classes of all identifier occurrences vs the scope model; (2) injective renaming of all declarations leaves the lowered instructions unchanged; non-trivial = a shadowing pair, a forward reference, or a use across a const barrier"
+        "generated scope trees (blocks, conditionals, all four loop forms, local declarations, const items and (1 case in 2) function items with parameters and calls, in any order) whose identifiers are drawn from a pool of 5 names plus register aliases, builtin consts and (1 case in 3) mapfile enum consts spelled like an alias / a pool name, so shadowing, forward references to consts, same-block redeclaration, use inside an own initialiser, locals used inside const initialisers and aliases in const context all occur; (1) Ok/Err and the definition classes of all identifier occurrences vs the scope model; (2) injective renaming of all declarations leaves the lowered instructions unchanged; non-trivial = a shadowing pair, a forward reference, or a use across a const barrier"
     }
     fn tape_len(&self, tier: Tier) -> usize { tier.pick(150, 300) }
     fn cases(&self, tier: Tier) -> u32 { tier.pick(200000, 4000000) }
